@@ -1,0 +1,198 @@
+//go:build verif
+
+package kioshun
+
+import "sort"
+
+// VerifPtr drives the real intrusive structures behind the eviction policies (the
+// shard LRU list, the two SIEVE queues with the hand, the LFU frequency ring) on
+// caller-chosen items and exposes every pointer field for comparison with the
+// pointer-level model. Items are named by their key (1..n); sentinels are reported
+// as negative numbers, nil as 0, anything else as -99.
+type VerifPtr struct {
+	s     *shard[int, int]
+	items []*cacheItem[int, int] // items[k] is the item named k (index 0 unused)
+	lfu   *lfuList[int, int]
+}
+
+func NewVerifPtr(owner uint8, mainCap int64, n int) *VerifPtr {
+	v := &VerifPtr{s: &shard[int, int]{}, lfu: newLFUList[int, int]()}
+	v.s.initLRU()
+	v.s.sieve = &sieveTinyLFU[int, int]{owner: owner, mainCap: mainCap}
+	v.s.sieve.probation.init(probationQueue, owner)
+	v.s.sieve.main.init(mainQueue, owner)
+	v.items = make([]*cacheItem[int, int], n+1)
+	for k := 1; k <= n; k++ {
+		v.items[k] = &cacheItem[int, int]{key: k}
+	}
+	return v
+}
+
+func (v *VerifPtr) it(k int) *cacheItem[int, int] {
+	if k <= 0 || k >= len(v.items) {
+		return nil
+	}
+	return v.items[k]
+}
+
+func (v *VerifPtr) id(p *cacheItem[int, int]) int64 {
+	q := v.s.sieve
+	switch {
+	case p == nil:
+		return 0
+	case p == v.s.head:
+		return -1
+	case p == v.s.tail:
+		return -2
+	case p == &q.probation.head:
+		return -3
+	case p == &q.probation.tail:
+		return -4
+	case p == &q.main.head:
+		return -5
+	case p == &q.main.tail:
+		return -6
+	}
+	if p.key >= 1 && p.key < len(v.items) && v.items[p.key] == p {
+		return int64(p.key)
+	}
+	return -99
+}
+
+func verifB64(b bool) int64 {
+	if b {
+		return 1
+	}
+	return 0
+}
+
+// Op runs one operation of the list structures; the codes are those of the model's pl_step.
+func (v *VerifPtr) Op(code, a, b int) int64 {
+	p := v.s.sieve
+	switch code {
+	case 1:
+		v.s.addToLRUHead(v.it(a))
+	case 2:
+		v.s.removeFromLRU(v.it(a))
+	case 3:
+		v.s.moveToLRUHead(v.it(a))
+	case 4:
+		if v.s.tail.prev == v.s.head {
+			return 0
+		}
+		return v.id(v.s.tail.prev)
+	case 10:
+		p.insert(v.it(a), false)
+	case 11:
+		p.insertMain(v.it(a))
+	case 12:
+		return verifB64(p.remove(v.it(a)))
+	case 13:
+		p.promote(v.it(a))
+	case 14:
+		p.replaceNode(v.it(a), v.it(b))
+	case 15:
+		return v.id(p.findMainVictim(int64(a), b == 1))
+	case 16:
+		p.recordReadHit(v.it(a))
+	case 17:
+		p.probation.init(probationQueue, p.owner)
+		p.main.init(mainQueue, p.owner)
+		p.hand = nil
+	case 18:
+		if p.probation.empty() {
+			return 0
+		}
+		c := p.probation.tail.prev
+		if !p.probation.holds(c) {
+			return 0
+		}
+		return v.id(c)
+	case 19:
+		return v.id(p.previousMainItem(v.it(a)))
+	case 20:
+		v.lfu.add(v.it(a))
+	case 21:
+		v.lfu.increment(v.it(a))
+	case 22:
+		v.lfu.remove(v.it(a))
+	case 23:
+		return v.id(v.lfu.removeLFU())
+	}
+	return 0
+}
+
+// Dump returns every field of every sentinel and item, then the queue sizes and the hand.
+func (v *VerifPtr) Dump() []int64 {
+	p := v.s.sieve
+	var out []int64
+	node := func(x *cacheItem[int, int]) {
+		out = append(out, v.id(x.prev), v.id(x.next), int64(x.queue), verifB64(itemVisited(x)), int64(x.reuse))
+	}
+	node(v.s.head)
+	node(v.s.tail)
+	node(&p.probation.head)
+	node(&p.probation.tail)
+	node(&p.main.head)
+	node(&p.main.tail)
+	for k := 1; k < len(v.items); k++ {
+		node(v.items[k])
+	}
+	return append(out, p.probation.size, p.main.size, v.id(p.hand), 0)
+}
+
+// DumpLFU walks the frequency ring in both directions (bounded) and lists both maps.
+func (v *VerifPtr) DumpLFU() []int64 {
+	l := v.lfu
+	var out []int64
+	fuel := len(v.items) + 1
+	n := l.head.next
+	for i := 0; ; i++ {
+		if i >= fuel || n == nil {
+			out = append(out, -1)
+			break
+		}
+		if n == l.head {
+			break
+		}
+		keys := make([]int, 0, len(n.items))
+		for it := range n.items {
+			keys = append(keys, int(v.id(it)))
+		}
+		sort.Ints(keys)
+		out = append(out, n.freq, int64(len(keys)))
+		for _, k := range keys {
+			out = append(out, int64(k))
+		}
+		n = n.next
+	}
+	out = append(out, -2)
+	n = l.head.prev
+	for i := 0; ; i++ {
+		if i >= fuel || n == nil {
+			out = append(out, -1)
+			break
+		}
+		if n == l.head {
+			break
+		}
+		out = append(out, n.freq)
+		n = n.prev
+	}
+	out = append(out, -3)
+	fs := make([]int, 0, len(l.freqMap))
+	for f := range l.freqMap {
+		fs = append(fs, int(f))
+	}
+	sort.Ints(fs)
+	for _, f := range fs {
+		out = append(out, int64(f))
+	}
+	out = append(out, -4)
+	for k := 1; k < len(v.items); k++ {
+		if b := l.itemFreq[v.items[k]]; b != nil {
+			out = append(out, int64(k), b.freq)
+		}
+	}
+	return append(out, 0)
+}
